@@ -2,7 +2,7 @@ SPECIFICATION Spec
 CONSTANT Cfg <- MCCfg4
 CONSTANT MaxD = 3
 CONSTANT Symmetric = TRUE
-CONSTANT Extra = 2
+CONSTANT Extra = 1
 INVARIANT TypeOK
 INVARIANT Protocol
 INVARIANT MaskSound
